@@ -97,20 +97,19 @@ theorem format_refines (i : Inp) (herr : 0 < i.err) (hax : 0 ≤ i.ax) (herrs : 
   have hlt : ltAbsDiv i V.err V.x 10 = i.lt := by simp [ltAbsDiv]
   have hadd : ∀ a : ℤ, a + (k - a) = k := by intro a; omega
   rw [hlt]
-  split
+  by_cases hh : hide i k = true
   · -- the exponent is hidden: x and err are formatted as they are
-    rename_i hc
-    have hh : hide i k = true := by
-      simp only [hide, Gen.fmtHide, Gen.Default.fmtHide]; exact hc
+    have hc := hh
+    simp only [hide, Gen.fmtHide, Gen.Default.fmtHide] at hc
     obtain ⟨m, E, hs⟩ := sci_total herr 1
     have hss : sciSplit i V.err 1 = (m, E) := by simp [sciSplit, val, herr.ne', hs]
-    simp [Fmt.format, hk, shownErr, shownX, hh, hs, hss, outOf, val, negOf, Gen.fmtDigits, Gen.Default.fmtDigits]
+    simp [Fmt.format, hk, shownErr, shownX, hh, hc, hs, hss, outOf, val, negOf, Gen.fmtDigits, Gen.Default.fmtDigits]
   · -- the exponent is shown: both are rescaled by 10**k, in two steps
-    rename_i hc
-    have hh : hide i k = false := by
-      simp only [hide, Gen.fmtHide, Gen.Default.fmtHide]; simpa using hc
+    have hh : hide i k = false := by simpa using hh
+    have hc := hh
+    simp only [hide, Gen.fmtHide, Gen.Default.fmtHide] at hc
     obtain ⟨m, E, hs⟩ := sci_total herrs 1
     have hss : sciSplit i (V.serr k) 1 = (m, E) := by simp [sciSplit, val, hk, herrs.ne', hs]
-    simp [Fmt.format, hk, shownErr, shownX, hh, hs, hss, outOf, val, negOf, scale, hadd, Gen.fmtDigits,
+    simp [Fmt.format, hk, shownErr, shownX, hh, hc, hs, hss, outOf, val, negOf, scale, hadd, Gen.fmtDigits,
       Gen.Default.fmtDigits]
 end Fmt
